@@ -135,6 +135,9 @@ pub struct Ans {
     /// writer: call flush() before the first write
     #[serde(default)]
     pub flush_first: bool,
+    /// writer: the parts are written with write_vectored (head and body as separate slices)
+    #[serde(default)]
+    pub vectored: bool,
     /// respond: the body reader fails once this many bytes have been read from it ...
     #[serde(default)]
     pub fail_at: Option<usize>,
